@@ -146,6 +146,12 @@ Definition enc_format_datetime : encoder := fun v =>
   | _ => Err Unsupported
   end.
 
+(* sql_int: SQL integers are 64 bits wide; a larger value goes to the VARCHAR column as text *)
+Definition sql_int (z : Z) : value :=
+  if (- 2 ^ 63 <=? z) && (z <? 2 ^ 63) then VInt z else VStr (dec_text z).
+Definition enc_sql_int : encoder := fun v =>
+  match v with VInt z => Ok (sql_int z) | _ => Err Unsupported end.
+
 Definition enc_table := list (vtype * encoder).
 
 Fixpoint enc_get (t : vtype) (tb : enc_table) : option encoder :=
@@ -170,15 +176,17 @@ Definition encoders (f : fmt) : enc_table :=
   match f with
   | FTxt => enc_set TDateTime enc_format_datetime base_encoders       (* DebugOutputStream *)
   | FCsv => enc_set TDateTime enc_format_datetime base_encoders       (* CSVOutputStream *)
-  | FDb => enc_set TDateTime enc_format_datetime base_encoders        (* SqlDbOutputStream *)
+  | FDb => enc_set TInt enc_sql_int
+             (enc_set TDateTime enc_format_datetime base_encoders)    (* SqlDbOutputStream *)
   | FJson => enc_set TBool enc_bool (enc_set TDateTime enc_str (enc_set TDate enc_str base_encoders))
-  | FSql => base_encoders       (* SqlTextOutputStream inherits the base table *)
+  | FSql => enc_set TInt enc_sql_int base_encoders                    (* SqlTextOutputStream *)
   end.
 
 (* flatten *)
 Definition flatten (f : fmt) (table : string) (id : Z) : value :=
   match f with
   | FTxt => VStr (text_of_string table ++ [40] ++ dec_text id ++ [41])     (* T(id) *)
+  | FDb | FSql => sql_int id
   | _ => VInt id
   end.
 
